@@ -16,7 +16,8 @@
 //       6 s      read once through the write handle in slot s (returns the value)
 //       7 s      release (destroy) the write handle in slot s: commit
 //       8 s      cancel() the write handle in slot s
-//       9 a b    move the write handle of slot a into the empty slot b
+//       9 a b    move-construct a handle in the empty slot b from the one in slot a; slot a keeps the moved-from (null)
+//                handle object: 7 / 17 destroy it, 8 calls cancel() on it - all without any visible effect
 //       10..13 s lock_shared / try_lock_shared / try_lock_shared_for / try_lock_shared_until into snapshot slot s
 //                (12, 13 only with mutex kind 1; refused with kind 0)
 //       14 s     read once through the snapshot in slot s (returns the value)
@@ -25,9 +26,11 @@
 //       17 s     release the write handle in slot s from a scope guard's destructor while an unrelated exception unwinds
 //                the stack (std::uncaught_exceptions() == 1); the exception is caught inside the operation, which returns
 //                normally.  The commit must happen exactly as for op 7.
-// An op on a slot in the wrong state (occupied / empty / out of range) returns -1 without touching the library.
+// An op on a slot in the wrong state (occupied / empty / null handle dereferenced / out of range) returns -1 without
+// touching the library.
 #include "vstd.hpp"
 #include "vpay.hpp"
+#include "cow_extra.hpp"  // vstd::shared_ptr: the two shared_ptr objects of the inner lr_guarded become observable
 
 namespace cowh {
 struct Ledger {
@@ -50,7 +53,23 @@ struct CowT {
     bool dead = false;
     explicit CowT(long x): p(x) { ledger().created++; }
     CowT(const CowT& o): p(copy_from(o)) { ledger().created++; }
-    CowT& operator=(const CowT&) = delete;
+    // assignment: never used by the unmodified library (a published version is immutable, a private copy is edited
+    // through its handle); instrumented - a write window on the destination - so that a library change that
+    // assigns into a version in place is observed
+    CowT& operator=(const CowT& o)
+    {
+        touch();
+        o.touch();
+        p = o.p;  // read window on the source, write window on *this
+        return *this;
+    }
+    CowT& operator=(CowT&& o)
+    {
+        touch();
+        o.touch();
+        p = std::move(o.p);  // write window on *this
+        return *this;
+    }
     ~CowT()
     {
         dead = true;
@@ -104,6 +123,7 @@ struct CowImpl {
         for (auto& s : ws) s.resize((size_t)nw);
         ss.resize(nthreads);
         for (auto& s : ss) s.resize((size_t)ns);
+        vs::cowslots().reset(&cow.m_data.m_left, &cow.m_data.m_right);
     }
     long op(int tid, const std::vector<long>& o)
     {
@@ -133,22 +153,29 @@ struct CowImpl {
                 case 0: if (h) return -1; h.emplace(cow.lock()); return 0;
                 // 1..3 (try_lock / try_lock_for / try_lock_until) cannot be driven: those three members do not
                 // compile for any T, Mutex (`return handle();` needs a default-constructible deleter)
-                case 4: if (!h) return -1; (*h)->touch(); (*h)->p.write(b); return 0;
-                case 5: if (!h) return -1; (*h)->touch(); (*h)->p.incr(); return 0;
-                case 6: if (!h) return -1; (*h)->touch(); return (*h)->p.read();
+                // a slot may hold a NULL handle object (moved-from): it cannot be dereferenced
+                case 4: if (!h || !*h) return -1; (*h)->touch(); (*h)->p.write(b); return 0;
+                case 5: if (!h || !*h) return -1; (*h)->touch(); (*h)->p.incr(); return 0;
+                case 6: if (!h || !*h) return -1; (*h)->touch(); return (*h)->p.read();
                 case 7: if (!h) return -1; h.reset(); return 0;
                 case 8:
                     // cancel(); the (now null) handle object itself stays alive until the end of the case, as a client's
-                    // local variable would: cancel() has to free the outer mutex itself, not leave it to ~handle
+                    // local variable would: cancel() has to free the outer mutex itself, not leave it to ~handle.
+                    // On a moved-from (null) handle cancel() does nothing and the object stays in its slot.
                     if (!h) return -1;
+                    if (!*h) {
+                        h->cancel();
+                        return 0;
+                    }
                     h->cancel();
                     grave.emplace_back(std::move(*h));
                     h.reset();
                     return 0;
                 case 9: {
-                    if (!h || b < 0 || b >= nw || b == a || W[(size_t)b]) return -1;
+                    // handle h2(std::move(h1)): ownership (pointer and unique_lock) goes to slot b; slot a keeps the
+                    // moved-from, null handle object (ops 7 / 8 / 17 on it must do nothing)
+                    if (!h || !*h || b < 0 || b >= nw || b == a || W[(size_t)b]) return -1;
                     W[(size_t)b].emplace(std::move(*h));
-                    h.reset();  // the moved-from handle is null: its destruction does nothing
                     return 0;
                 }
             }
